@@ -160,12 +160,13 @@ class RealWorld:
                 cells.append([self.idx[k] for k in cell] if cell else [])
         sts = []
         for a in self.agent_list:
-            pos = getattr(a, "_position", None)
+            # public properties only (before the first reset they are not set yet: the defaults of the dump)
+            pos = getattr(a, "position", None)
             p = [int(pos[0]), int(pos[1])] if pos is not None else [0, 0]
-            h = getattr(a, "_health", 1)
+            h = getattr(a, "health", 1)
             sts.append([p, fr(h), bool(a.active),
-                        int(getattr(a, "_ammo", 0)) if isinstance(a, AmmoAgent) else 0,
-                        int(getattr(a, "_orientation", 0) or 0) if isinstance(a, OrientationAgent) else 0])
+                        int(getattr(a, "ammo", 0)) if isinstance(a, AmmoAgent) else 0,
+                        int(getattr(a, "orientation", 0) or 0) if isinstance(a, OrientationAgent) else 0])
         return [cells, sts]
 
 
